@@ -1044,11 +1044,12 @@ def check_C10(tier):
     rng = random.Random(seed() * 31 + 10)
     n = 60 if tier == 'quick' else 600
     defs = []   # (name, source, kind, info)
+    fixed = ['mask', 'k', 's', 'KS', 'Kelvin', 'ſ', 'K', 'ß', 'ǆ', 'σς', 'i', 'I', 'İ', 'a.b', '(x)', 'a|b', '[k]', 'k+', 's*', '\\', '^$', '{2}', '-~', '#&']
     for i in range(n):
-        lit = fg.random_literal(rng)
+        lit = fixed[i] if i < len(fixed) else fg.random_literal(rng)
         defs.append(('TokS%d' % i, '#[derive(Logos)] enum TokS%d { #[token(%s)] A, #[regex("[0-9]+")] N }' % (i, fg.rust_str_lit(lit)), 'tok', dict(lit=lit.encode('utf8'), bytes=False)))
         defs.append(('TokSI%d' % i, '#[derive(Logos)] enum TokSI%d { #[token(%s, ignore(case))] A, #[regex("[0-9]+")] N }' % (i, fg.rust_str_lit(lit)), 'toki', dict(lit=lit, bytes=False)))
-        bl = fg.random_byte_literal(rng)
+        bl = fixed[i].encode('utf8') if i < len(fixed) else fg.random_byte_literal(rng)
         defs.append(('TokB%d' % i, '#[derive(Logos)] #[logos(utf8 = false)] enum TokB%d { #[token(%s)] A, #[regex("[0-9]+")] N }' % (i, fg.rust_bytes_lit(bl)), 'tok', dict(lit=bl, bytes=True)))
         defs.append(('TokBI%d' % i, '#[derive(Logos)] #[logos(utf8 = false)] enum TokBI%d { #[token(%s, ignore(case))] A, #[regex("[0-9]+")] N }' % (i, fg.rust_bytes_lit(bl)), 'toki', dict(lit=bl, bytes=True)))
     pats = ['[a-c]+x', 'ab|cd', 'k[a-z]?', 'é+', 'straße', '[^a-y]z', 'a{2,3}b', 'sS', '(?-i:a)b', 'ǆ', '[k-m]+']
@@ -1210,6 +1211,12 @@ def check_C11(tier):
     for subs, pats in C11_BYTE_CASES + C11_BYTE_UNICODE_CASES:
         for p in pats:
             cases.append((subs, p, False))
+    # the same references from a byte-string regex literal: the str subpattern keeps (?u:..) there too
+    bytes_regex_cases = set()
+    for subs, pats in C11_BYTE_UNICODE_CASES + C11_BYTE_CASES[2:]:
+        for p in pats:
+            bytes_regex_cases.add(len(cases))
+            cases.append((subs, p, False))
     # random combinations of references inside small contexts
     ctxs = ['%s', 'a%sb', '(%s)+', '%s|z', 'x(%s|y)', '%s%s']
     for _ in range(20 if tier == 'quick' else 200):
@@ -1222,8 +1229,9 @@ def check_C11(tier):
     for i, (subs, pat, strmode) in enumerate(cases):
         attrs = ''.join('#[logos(subpattern %s = %s)] ' % (n, fg.rust_str_lit(s) if isinstance(s, str) else fg.rust_bytes_lit(s)) for n, s, _ in subs)
         mode = '' if strmode else '#[logos(utf8 = false)] '
-        lit = fg.rust_str_lit(pat)
-        defs.append(('Sp%d' % i, '#[derive(Logos)] %s%senum Sp%d { #[regex(%s)] A, #[token("0")] Z }' % (mode, attrs, i, lit), subs, pat, strmode))
+        isb = i in bytes_regex_cases
+        lit = ('b' + fg.rust_str_lit(pat)) if isb else fg.rust_str_lit(pat)
+        defs.append(('Sp%d' % i, '#[derive(Logos)] %s%senum Sp%d { #[regex(%s)] A, #[token("0")] Z }' % (mode, attrs, i, lit), subs, pat, strmode, isb))
     und = []
     for i, (subs, pat) in enumerate(C11_UNDEFINED):
         attrs = ''.join('#[logos(subpattern %s = %s)] ' % (n, fg.rust_str_lit(s)) for n, s, _ in subs)
@@ -1233,14 +1241,14 @@ def check_C11(tier):
     open(src, 'w').write('\n'.join([x[1] for x in defs] + [x[1] for x in und]) + '\n')
     caps = {c.name: c for c in build.capture_files([src], 'c11-%d-%s' % (seed(), tier))}
     specs = []
-    for name, source, subs, pat, strmode in defs:
+    for name, source, subs, pat, strmode, isb in defs:
         tosrc = lambda s: s if isinstance(s, str) else fg.regex_escape_bytes(s).replace('\\\\x', '\\x') if False else (s if isinstance(s, str) else ''.join(chr(b) if b <= 127 else '\\x%02X' % b for b in s))
         inl = py_inline([(n, tosrc(s), u) for n, s, u in subs], pat)
         if inl is not None:
-            specs.append((name, 1 if strmode else 0, 1, 0, inl))
+            specs.append((name, 1 if strmode else 0, 0 if isb else 1, 0, inl))
     refs = fg.refdfas(specs, 'c11')
     pairs = []
-    for name, source, subs, pat, strmode in defs:
+    for name, source, subs, pat, strmode, isb in defs:
         c = caps.get(name)
         res.count('generated_definitions')
         if c is None or c.panic is not None:
@@ -1267,7 +1275,7 @@ def check_C11(tier):
             res.violation(None, '%s: reference to an undefined subpattern is not reported (outcome %s, %s)' % (name, c.outcome if c else None, c.cerrs[:2] if c else None), dict(definition=source))
     # K8: the real Subpatterns::new + subst_subpatterns vs Front.Subpat (vm_compute)
     lines = []; exprs = []; meta = []
-    allcases = [(subs, pat, sm) for _, _, subs, pat, sm in defs] + [(subs, pat, True) for subs, pat in C11_UNDEFINED]
+    allcases = [(subs, pat, sm) for _, _, subs, pat, sm, _ in defs] + [(subs, pat, True) for subs, pat in C11_UNDEFINED]
     for i, (subs, pat, strmode) in enumerate(allcases):
         parts = ['k%d' % i, '1' if strmode else '0', pat.encode('utf8').hex()]
         cd = []
@@ -1310,8 +1318,11 @@ def check_C18(tier):
     named = ['priority = 3', 'priority = 12', 'callback = my_cb', 'callback = |lex| lex.slice().len()', 'ignore(case)', 'allow_greedy = true',
              'allow_greedy = false', 'callback = path::to::cb', 'priority = 0x10', 'ignore(case, case)', 'unknown = 1', 'skip "x"', 'subpattern d = r"[0-9]"',
              'type T = u32', 'extras = Vec<(u8, u8)>', 'error = MyErr', 'error(MyErr, my_cb)', 'utf8 = false', 'crate = ::logos', 'skip(" ", priority = 2)',
-             'export_dir = "d"', 'lifetime = \'a']
-    positional = ['my_cb', 'logos::skip', '|lex| lex.slice().parse()', '|lex| { foo(lex, 1, 2) }', '"lit"', 'b"\\xFF"', '|_| ()', 'a . b', '= 3', 'x y z', 'x y = 1']
+             'export_dir = "d"', 'lifetime = \'a', 'callback = |lex| lex.slice().len() < 3', 'callback = |lex| lex.extras << 1', 'callback = |l| l.slice().len() <= 2',
+             'callback = |l| if l.slice().len() > 1 { 1 } else { 2 }', 'callback = |l| l.slice().parse::<u8>()', 'extras = HashMap<u8, Vec<u8>>', 'callback = |l| a < b && c > d',
+             'callback = |l| -> u8 { 1 }', 'callback = |l| match l { _ => 1 }', 'priority = 1 < 2']
+    positional = ['my_cb', 'logos::skip', '|lex| lex.slice().parse()', '|lex| { foo(lex, 1, 2) }', '"lit"', 'b"\\xFF"', '|_| ()', 'a . b', '= 3', 'x y z', 'x y = 1',
+                  '|lex| lex.slice().len() < 3', '|lex| lex.extras << 2', '|l| l.slice().parse::<u8>().ok()', '|l| a > b']
     texts = []
     for a in named + positional:
         texts.append(a)
@@ -1347,6 +1358,7 @@ def check_C18(tier):
     res.oblige(nb == 0)
     # ---- end to end: every order of the named arguments gives the same outcome and the same generated code
     args = {'priority': 'priority = 7', 'callback': 'callback = cb', 'ignore': 'ignore(case)', 'allow_greedy': 'allow_greedy = true'}
+    args_lt = dict(args, callback='callback = |lex| lex.slice().len() < 3')
     defs = []
     kinds = [('token', '"ab"', ['priority', 'callback', 'ignore']), ('regex', '"a[b-d]+.*"', ['priority', 'callback', 'ignore', 'allow_greedy']),
              ('skip', '"[x-z]+.*"', ['priority', 'callback', 'ignore', 'allow_greedy'])]
@@ -1359,16 +1371,17 @@ def check_C18(tier):
                 for pos in poscbs:
                     if pos is not None and 'callback' in subset:
                         continue
-                    members = []
-                    for perm in itertools.permutations(subset):
-                        parts = [lit] + ([pos] if pos else []) + [args[a] for a in perm]
-                        body = ', '.join(parts)
-                        if kind == 'skip':
-                            src = '#[derive(Logos)] #[logos(skip(%s))] enum P%d { #[token("q")] Q }' % (body, idx)
-                        else:
-                            src = '#[derive(Logos)] enum P%d { #[%s(%s)] A, #[token("q")] Q }' % (idx, kind, body)
-                        members.append(('P%d' % idx, src, body)); idx += 1
-                    groups.append((kind, members))
+                    for argset in ((args, args_lt) if 'callback' in subset else (args,)):
+                        members = []
+                        for perm in itertools.permutations(subset):
+                            parts = [lit] + ([pos] if pos else []) + [argset[a] for a in perm]
+                            body = ', '.join(parts)
+                            if kind == 'skip':
+                                src = '#[derive(Logos)] #[logos(skip(%s))] enum P%d { #[token("q")] Q }' % (body, idx)
+                            else:
+                                src = '#[derive(Logos)] enum P%d { #[%s(%s)] A, #[token("q")] Q }' % (idx, kind, body)
+                            members.append(('P%d' % idx, src, body)); idx += 1
+                        groups.append((kind, members))
     if tier == 'quick':
         rng.shuffle(groups)
         groups = sorted(groups, key=lambda g: -len(g[1]))[:40] + groups[40:80]
@@ -1599,7 +1612,7 @@ def check_C19(tier):
     import coqeval, json as _json
     res = Result('C19', tier)
     framework(res, ['C19_never_panics', 'C19_bad_variant_rejected', 'C19_greedy_complete', 'C19_greedy_sound',
-                    'C19_old_panics_on_empty_tuple', 'C19_old_panics_on_duplicate_callback', 'C19_greedy_old_refuted'])
+                    'C19_old_panics_on_empty_tuple', 'C19_old_panics_on_duplicate_callback', 'C19_greedy_old_refuted', 'C19_greedy_nocap_refuted'])
     rng = random.Random(seed() * 47 + 19)
     mal = os.path.join(VERIF, 'corpus', 'front', 'malformed.rs')
     n = 250 if tier == 'quick' else 3000
@@ -1610,6 +1623,9 @@ def check_C19(tier):
     curated = build.capture_files([mal], 'c19-malformed')
     randcaps = build.capture_files([rnd], 'c19-rand-%d-%d' % (seed(), n))
     repo_caps, rand_graph = ce.corpora(tier, res)
+    if len(randcaps) < 0.6 * n:
+        raise RuntimeError('only %d of %d random malformed definitions reached the derive (capture tool could not parse the rest)' % (len(randcaps), n))
+    res.count('random_malformed_definitions', len(randcaps))
     npanic = 0
     for c in list(curated) + list(randcaps) + list(repo_caps) + list(rand_graph):
         res.count('generate_calls')
@@ -1751,7 +1767,7 @@ def check_C16(tier):
             texts = []
             for out in outs:
                 cp = os.path.join(out, nm); gp = cp[:-4] + '.gen'
-                capt = open(cp).read() if os.path.exists(cp) else None
+                capt = '\n'.join(l for l in open(cp).read().split('\n') if not l.startswith('repeat ')) if os.path.exists(cp) else None
                 gent = open(gp).read() if os.path.exists(gp) else None
                 # the cap records the in-process repetition verdict
                 texts.append((capt, gent))
